@@ -246,6 +246,51 @@ def reshaped_patterns_purity(res, c):
         res.violation(f"C05:two-saves-differ:{first_diff_chunk(Y, Y2)}", f"saving the same object (pattern made {how}) twice gives different bytes", dict(c.describe(), reshaped=how))
 
 
+def rearranged_modules_purity(res, c):
+    """The module list is a plain list and applications re-order it with list operations (swap, insert, delete) - positions and
+    each module's own `index` then disagree.  Whatever such a project saves as, saving does not touch the objects."""
+    import rv.api as api
+    p = c.obj
+    live = [i for i, m in enumerate(p.modules) if m is not None and i > 0]
+    if len(live) < 2:
+        return
+    rng = random.Random(c.index + 5)
+    how = rng.choice(("swap", "insert-none", "delete-none", "rotate"))
+    if how == "swap":
+        i, j = rng.sample(live, 2)
+        p.modules[i], p.modules[j] = p.modules[j], p.modules[i]
+    elif how == "insert-none":
+        p.modules.insert(rng.choice(live), None)
+    elif how == "delete-none":
+        gaps = [i for i, m in enumerate(p.modules) if m is None]
+        if not gaps:
+            p.modules.insert(1, None)
+        else:
+            del p.modules[gaps[0]]
+    else:
+        p.modules[1:] = p.modules[2:] + p.modules[1:2]
+    res.count("purity_evaluations")
+    res.count("rearranged_module_list_saves")
+    monitors.PURITY_ENABLED = False
+    try:
+        try:
+            before = (_snap(p), [(m.index, hash(m), int(m)) if m is not None else None for m in p.modules])
+            Y = p.read()
+            after = (_snap(p), [(m.index, hash(m), int(m)) if m is not None else None for m in p.modules])
+            Y2 = p.read()
+        except Exception:
+            res.count("rearranged_module_list_unsaveable")
+            return
+    finally:
+        monitors.PURITY_ENABLED = True
+    if before != after:
+        d = snapshot.diff(before[0], after[0])
+        res.violation(f"C05:impure-save:{snapshot.field_key(d[0][0]) if d else '/modules[]/index'}", f"saving a project whose module list was re-ordered by list operations ({how}) changed the objects: "
+                                                                                                      f"{d[:2] if d else [x for x, y in zip(before[1], after[1]) if x != y][:3]}", dict(c.describe(), rearranged=how))
+    elif Y != Y2:
+        res.violation(f"C05:two-saves-differ:{first_diff_chunk(Y, Y2)}", f"saving the same object (module list re-ordered: {how}) twice gives different bytes", dict(c.describe(), rearranged=how))
+
+
 def count_out_of_range(o):
     from rv.project import Project
     from rv.controller import Range
@@ -351,6 +396,7 @@ def run_shard(spec_, res):
         sources.append((f"generated:{c.kind}", raw, c.describe()))
         if c.kind == "project":
             reshaped_patterns_purity(res, c)
+            rearranged_modules_purity(res, c)
         if i % 2 == 0:
             # the same content as ANOTHER writer would store it (the independent reference encoder with random format choices):
             # X need not be something this library would ever write itself
